@@ -7,6 +7,7 @@ CHECK = {
         "Resume() is only called by whoever called Suspend() (the clock documents a panic otherwise)",
         "base clock is bb-storage SystemClock on testing/synctest fake time (behind a pass-through wrapper that only counts NewTimer calls and stops handing out live timers after 5000, so that a spinning re-arm loop is reported instead of hanging): time does not advance while a goroutine is runnable, so scheduling latency between a timer firing and the clock handling it is not explored",
         "scheduling latency between a base timer firing and the clock handling it is explored separately (TestC11SuspendableClockLateTicks) over a hand-written manual base clock whose ticks carry the instant the timer fired and are delivered by the harness, possibly late; there the oracle bounds what the clock may believe by [U(fired), U(handled)]",
+        "executor sub-check: Execute() may be called up to 4 ticks before the command starts, the consumer of its execution state updates taking the first two updates (fetching inputs, running) late; time Execute() spends waiting for the worker to take a state update is not run time of the command, so the timeline model stays anchored at the instant the runner is invoked",
         "events at the same instant as a base-timer expiry may be processed in either order; the oracle accepts both",
         "LocalBuildExecutor is driven with fakes: empty build directory, CAS holding only the command, a runner that answers a finished context like a gRPC client stub (status.FromContextError)",
         "buffers handed out by SuspendingBlobAccess.Get are finished exactly once (read to the end / closed / discarded), as the Buffer contract demands",
